@@ -251,7 +251,7 @@ def run(ctx):
             # quick tier: every 1-member declaration and a seeded sample of the 2-member ones
             one = [n for n in decl_nodes if len(n["fields"]) <= 1]
             two = [n for n in decl_nodes if len(n["fields"]) > 1]
-            decl_nodes = one + ctx.rng.sample(two, min(len(two), 1800))
+            decl_nodes = one + ctx.rng.sample(two, min(len(two), 1000))
         recs = measure(ctx, decl_nodes, "d")
         rrecs = frnd.result()
         fv.result()
